@@ -90,6 +90,29 @@ type Deep4 struct {
 	Last int `db:"last"`
 }
 
+// Diamond: the same tag-less struct is reached through two embedding paths (no cycle).
+type Record struct {
+	Created int
+	Note    string
+}
+
+type Employee struct {
+	Record
+	ID   int    `db:"id"`
+	Name string `db:"name"`
+}
+
+type Office struct {
+	Record
+	City     string `db:"city"`
+	OfficeID int    `db:"office_id"`
+}
+
+type EmployeeOffice struct {
+	Employee
+	*Office
+}
+
 // Tags has unusual but valid tags.
 type Tags struct {
 	A int    `db:"名前"`
@@ -277,6 +300,7 @@ var Entries = []Entry{
 	e(Deep{}, "struct", false, "id", "name", "address_id", "extra", "lat", "lon", "n", "top"),
 	e(Deep3{}, "struct", false, "cx", "cy", "alt", "label", "floors", "owner", "site"),
 	e(Deep4{}, "struct", false, "cx", "cy", "alt", "label", "floors", "owner", "site", "tag", "last"),
+	e(EmployeeOffice{}, "struct", false, "id", "name", "city", "office_id"),
 	e(Tags{}, "struct", false, "名前", "9", "\"quoted\"", "'q k'", "_x", "col_1", "é"),
 	e(Kinds{}, "struct", false, "i", "i8", "u16", "i64", "s", "b", "f", "bs", "ps", "pi", "ns", "ni", "v", "pv", "anyf", "mi", "ms"),
 	e(EmbTagged{}, "struct", false, "myv", "z"),
